@@ -1,9 +1,189 @@
-import ClairModel.Model.Indexer
+/-
+  C07 — Indexing never claims success it did not achieve, under any fault.
+
+  Property theorems only. The model (Model/Indexer.lean) is the controller
+  `run` loop with its six state functions over a store machine, every
+  datastore / realizer / scanner call answered by a fault oracle (ordinary
+  error, Canceled / DeadlineExceeded errors, cancellation of the caller's
+  context during or after a call, process crash, effect-then-error). It is
+  tied to /repo by the extracted state table (Gen/Controller.lean) and by the
+  fault-enumeration correspondence of `./check C07`.
+
+  `sem` (what each scanner finds in each layer, the coalescers) is arbitrary
+  throughout; scanners are deterministic functions of (scanner, layer).
+-/
+import ClairModel.Lib.Sm
+import ClairModel.Proofs.IndexerFF
+import ClairModel.Gen.Controller
 
 namespace ClairModel.Props.C07
 open ClairModel ClairModel.Indexer
 
-/-- placeholder while the harness is brought up -/
-theorem fuel_enough : fuel = 8 := rfl
+/-! ## The persistent half: what the store's records mean, at every crash point -/
+
+/-- The store invariant holds after any history of reconfigurations and Index
+    calls, each under an arbitrary fault oracle (any number of failures of any
+    kind at any positions, including a crash = abandoning the call at any
+    point). Since a crash is a fault of the oracle, every prefix of every call
+    sequence is covered. -/
+theorem reachable_inv (sem : Sem) (ops : List Op) : Inv sem (Sm.run (step sem) {} ops).st :=
+  Sm.invariant_run (step := step sem) (Inv := fun (wd : World) => Inv sem wd.st)
+    (fun (wd : World) op h => by
+      cases op with
+      | config cfg => exact h
+      | index m o d => exact (index_spec sem o wd.cfg m wd.st d h).inv)
+    ops ({} : World) (inv_empty sem)
+
+/-- A manifest is recorded as indexed by a scanner only if the manifest was
+    persisted, its content was written to the search index, a report is stored,
+    and that scanner ran on every layer with all of its results stored. -/
+theorem scanned_implies_complete (sem : Sem) (ops : List Op) (m : Manifest) (s : Scanner)
+    (h : (m, s) ∈ (Sm.run (step sem) {} ops).st.scannedManifest) :
+    let st := (Sm.run (step sem) {} ops).st
+    m ∈ st.manifests ∧ (∃ b, (m, b) ∈ st.index) ∧ (st.report? m).isSome ∧
+    ∀ l, l ∈ m → (l, s) ∈ st.scannedLayer ∧ ∀ r, r ∈ sem.scan s l → (⟨l, s, r⟩ : ArtRow) ∈ st.rows := by
+  intro st
+  have hi := reachable_inv sem ops
+  refine ⟨hi.manifestPersisted m s h, hi.manifestIndexed m s h, hi.manifestReport m s h, ?_⟩
+  intro l hl
+  have hls := hi.manifestLayers m s h l hl
+  exact ⟨hls, hi.layerComplete l s hls⟩
+
+/-- A layer is marked scanned by a scanner only after that scanner's artifacts
+    for it are stored: the stored rows of a marked (layer, scanner) pair are
+    exactly what the scanner finds in the layer. -/
+theorem layer_marked_after_stored (sem : Sem) (ops : List Op) (l : Layer) (s : Scanner)
+    (h : (l, s) ∈ (Sm.run (step sem) {} ops).st.scannedLayer) (r : Row) :
+    (⟨l, s, r⟩ : ArtRow) ∈ (Sm.run (step sem) {} ops).st.rows ↔ r ∈ sem.scan s l :=
+  ⟨fun hr => (reachable_inv sem ops).rowsSound _ hr, fun hr => (reachable_inv sem ops).layerComplete l s h r hr⟩
+
+/-- Nothing is ever un-recorded by an Index call, whatever fails. -/
+theorem index_only_grows (sem : Sem) (o : Oracle) (cfg : Cfg) (m : Manifest) (st : Store) (d : Bool) (hi : Inv sem st) :
+    Le st (index sem o cfg m st d).st :=
+  (index_spec sem o cfg m st d hi).le
+
+/-- Indexing one manifest never changes the report or the scanned marks of another. -/
+theorem other_manifests_untouched (sem : Sem) (o : Oracle) (cfg : Cfg) (m m' : Manifest) (st : Store) (d : Bool)
+    (hi : Inv sem st) (hne : m' ≠ m) :
+    (index sem o cfg m st d).st.report? m' = st.report? m' ∧
+    ∀ s, (m', s) ∈ (index sem o cfg m st d).st.scannedManifest ↔ (m', s) ∈ st.scannedManifest :=
+  ⟨(index_spec sem o cfg m st d hi).frame.report m' hne, fun s => (index_spec sem o cfg m st d hi).frame.scanned m' s hne⟩
+
+/-! ## The reporting half -/
+
+/-- If Index returns a nil error and a report marked successful, the manifest
+    is recorded as scanned by every configured scanner and the stored report is
+    the returned one (hence, by `scanned_implies_complete`, everything was
+    persisted) — provided no call is answered with a DeadlineExceeded-class
+    error while the caller's context is live. Every other fault is allowed. -/
+theorem claimed_success_is_complete_partial (sem : Sem) (o : Oracle) (cfg : Cfg) (m : Manifest) (st : Store) (d : Bool)
+    (hi : Inv sem st) (hnd : NoDeadline o) (rep : Report)
+    (herr : (index sem o cfg m st d).err = none) (hrep : (index sem o cfg m st d).report = some rep)
+    (hs : rep.success = true) :
+    (index sem o cfg m st d).st.manifestScanned m cfg.scanners = true ∧
+    (index sem o cfg m st d).st.report? m = some rep :=
+  (index_spec sem o cfg m st d hi).success hnd herr rep hrep hs
+
+/-- A failed call is reported: if any datastore / realizer / scanner call of
+    the Index call failed, Index returns an error — under the same hypothesis. -/
+theorem failure_reported_partial (sem : Sem) (o : Oracle) (cfg : Cfg) (m : Manifest) (st : Store) (d : Bool)
+    (hi : Inv sem st) (hnd : NoDeadline o) (hf : (index sem o cfg m st d).e.failed = true) :
+    (index sem o cfg m st d).err ≠ none :=
+  (index_spec sem o cfg m st d hi).failed hnd hf
+
+/-! ## The statement at full strength is false of the code: witnesses -/
+
+namespace Witness
+/-- Scanners find nothing; one package scanner. -/
+def sem0 : Sem := { scan := fun _ _ => [], real := fun _ => false, coal := fun _ _ => [], merge := fun _ => [] }
+def cfg0 : Cfg := [{ ps := [⟨"a", "1", .pkg⟩], ds := [], rs := [], fs := [] }]
+def faultAt (p : Nat) (f : Fault) : Oracle := fun q => if q = p then f else .ok
+def clean : Oracle := fun _ => .ok
+end Witness
+open Witness
+
+/-- Full-strength `failure_reported` fails: manifest [1], the layer fetch
+    (call 5: M M P R L Z) returns DeadlineExceeded with the context live; a
+    call failed, yet Index returns a nil error and a report that is neither
+    successful nor carries an error. (finding deadline-swallowed) -/
+theorem failure_reported_counterexample :
+    let r := index sem0 (faultAt 5 .deadline) cfg0 [1] {} false
+    r.e.failed = true ∧ r.err = none ∧ r.report.map (fun x => (x.success, x.err)) = some (false, false) := by
+  decide
+
+/-- Full-strength `claimed_success_is_complete` fails: SetIndexFinished (call
+    19: M M P R, L Z R, L S K R, A B D B F R, X R, Y) returns DeadlineExceeded; Index returns a nil error and a report with
+    Success = true, but the manifest is not recorded as scanned. -/
+theorem claimed_success_counterexample :
+    let r := index sem0 (faultAt 19 .deadline) cfg0 [1] {} false
+    r.err = none ∧ r.report.map (·.success) = some true ∧ r.st.manifestScanned [1] cfg0.scanners = false := by
+  decide
+
+/-- "scanned ⇒ the stored report is a successful one" is false, and a retry
+    does not converge: index manifest [1]; index it again with ManifestScanned
+    failing once (call 0); the third, fault-free call returns a nil error and
+    the unsuccessful report that the failed attempt persisted over the finished
+    one, and the manifest stays recorded as scanned. (finding report-clobbered) -/
+theorem retry_converges_counterexample :
+    let r1 := index sem0 clean cfg0 [1] {} false
+    let r2 := index sem0 (faultAt 0 .err) cfg0 [1] r1.st false
+    let r3 := index sem0 clean cfg0 [1] r2.st false
+    r1.report.map (·.success) = some true ∧
+    r3.err = none ∧ r3.report.map (fun x => (x.success, x.err)) = some (false, true) ∧
+    r3.st.manifestScanned [1] cfg0.scanners = true := by
+  decide
+
+/-- The same through a lost reply: SetIndexFinished commits but the caller sees
+    an error (call 19); the manifest is recorded as scanned while the stored
+    report is the error report. -/
+theorem lost_reply_counterexample :
+    let r := index sem0 (faultAt 19 .commitErr) cfg0 [1] {} false
+    r.st.manifestScanned [1] cfg0.scanners = true ∧
+    (r.st.report? [1]).map (fun x => (x.success, x.err)) = some (false, true) := by
+  decide
+
+/-! ## Retry -/
+
+/-- After any failure or crash — an Index call under an arbitrary oracle
+    without lost-reply faults, on a manifest that was not already recorded as
+    indexed — a later fault-free Index call on the resulting store returns a nil
+    error and exactly the report a fault-free run on an empty store produces,
+    and records the manifest as scanned. The starting store is any store
+    reachable under a fixed configuration with stored reports intact (`Good`,
+    an invariant of fault-free operation, see C08). -/
+theorem retry_converges_partial (sem : Sem) (o o' : Oracle) (cfg : Cfg) (m : Manifest) (st : Store) (d : Bool)
+    (hg : Good sem cfg st) (hnc : NoCommitErr o) (hnew : st.manifestScanned m cfg.scanners = false) (hff : FF o') :
+    let st1 := (index sem o cfg m st d).st
+    let r := index sem o' cfg m st1 false
+    r.err = none ∧ r.report = some (freshReport sem cfg m) ∧
+    r.st.manifestScanned m cfg.scanners = true ∧ r.st.report? m = some (freshReport sem cfg m) := by
+  intro st1 r
+  have hg1 : Good sem cfg st1 := good_index_faulty sem o cfg m st d hg hnc hnew
+  exact index_ff_result sem o' cfg m st1 hff hg1
+
+/-- A fault-free Index call on an empty store returns `freshReport`. -/
+theorem fresh_run (sem : Sem) (o : Oracle) (cfg : Cfg) (m : Manifest) (hff : FF o) (hne : cfg.scanners ≠ []) :
+    (index sem o cfg m {} false).err = none ∧ (index sem o cfg m {} false).report = some (freshReport sem cfg m) := by
+  have := index_ff_result sem o cfg m {} hff (good_empty sem cfg hne)
+  exact ⟨this.1, this.2.1⟩
+
+/-! ## The extracted state table is the model's -/
+
+/-- `stateToStateFunc` of state.go is the table `stateFn` dispatches on. -/
+theorem gen_stateToStateFunc : Gen.Controller.stateToStateFunc = stateFuncTable := by decide
+
+/-- Every state function returns exactly the (state, error?) pairs the model's
+    functions return. -/
+theorem gen_returns : Gen.Controller.returns = returnTable := by decide
+
+/-- In particular every error return goes to Terminal (which is why the retry
+    branch of `run` cannot retry). -/
+theorem gen_error_returns_terminal : ∀ e, e ∈ Gen.Controller.returns → e.2.2 = ["Terminal"] := by decide
+
+/-- State names (IndexReport.State strings) in iota order. -/
+theorem gen_stateNames :
+    Gen.Controller.stateNames =
+      [CState.terminal, .checkManifest, .fetchLayers, .scanLayers, .coalesce, .indexManifest, .indexError, .indexFinished].map CState.name ∧
+    Gen.Controller.stateConsts = Gen.Controller.stateNames := by decide
 
 end ClairModel.Props.C07
